@@ -172,6 +172,29 @@ type lb struct {
 	back   []string
 	prefer int
 	conns  atomic.Int64
+	// outage: every new connection is closed at once and its arrival recorded;
+	// the connections open at the start of the outage are cut
+	down     bool
+	attempts []time.Time
+	open     map[net.Conn]struct{}
+}
+
+func (b *lb) setDown(down bool) {
+	b.mu.Lock()
+	b.down = down
+	if down {
+		b.attempts = nil
+		for c := range b.open {
+			c.Close()
+		}
+	}
+	b.mu.Unlock()
+}
+
+func (b *lb) attemptTimes() []time.Time {
+	b.mu.Lock()
+	defer b.mu.Unlock()
+	return append([]time.Time{}, b.attempts...)
 }
 
 func newLB(back []string) (*lb, error) {
@@ -197,6 +220,16 @@ func (b *lb) setPrefer(i int) { b.mu.Lock(); b.prefer = i; b.mu.Unlock() }
 func (b *lb) serve(c net.Conn) {
 	defer c.Close()
 	b.mu.Lock()
+	if b.down {
+		b.attempts = append(b.attempts, time.Now())
+		b.mu.Unlock()
+		return
+	}
+	if b.open == nil {
+		b.open = map[net.Conn]struct{}{}
+	}
+	b.open[c] = struct{}{}
+	defer func() { b.mu.Lock(); delete(b.open, c); b.mu.Unlock() }()
 	order := rand.Perm(len(b.back))
 	if b.prefer >= 0 {
 		order = append([]int{b.prefer}, order...)
@@ -572,6 +605,35 @@ func runC18Case(bin, dir string, c c18case, sh *core.Shard) (sig, what, inconclu
 			}
 			return true
 		})
+		if !okAll && !strings.HasPrefix(lagging, "admin api") {
+			// A survivor that shows the node as UNREACHABLE (never as active) had
+			// suspected it before it exited - on a starved machine the detector does
+			// that to a healthy node - so the victim and this survivor may not have
+			// considered each other live when the departure was pushed. Such a
+			// survivor is not routing to the node either; it must "follow through
+			// gossip": within 30 s it shows the node as left (or has forgotten it).
+			onlyUnreachable := true
+			for _, s := range survivors {
+				if v, err := s.viewOf(victim.id); err != nil || (v.Status != "left" && v.Status != "" && v.Status != "unreachable") {
+					onlyUnreachable = false
+				}
+			}
+			if onlyUnreachable {
+				sh.Count("departures_with_a_suspecting_survivor", 1)
+				okAll = core.WaitUntil(30*time.Second, 50*time.Millisecond, func() bool {
+					for _, s := range survivors {
+						v, err := s.viewOf(victim.id)
+						if err != nil || (v.Status != "left" && v.Status != "") {
+							if err == nil {
+								lagging = fmt.Sprintf("%s still lists it as %q with %v 30 s after the exit (it had suspected the node before the exit)", s.id, v.Status, v.Endpoints)
+							}
+							return false
+						}
+					}
+					return true
+				})
+			}
+		}
 		if !okAll {
 			stopOnce()
 			if strings.HasPrefix(lagging, "admin api") {
@@ -706,6 +768,86 @@ func runC18Case(bin, dir string, c c18case, sh *core.Shard) (sig, what, inconclu
 	return "", "", ""
 }
 
+// runC18Outage: one node behind the balancer; the balancer refuses every
+// connection until the listener has made `want` attempts, then works again.
+// Judged on the recorded attempt times: consecutive attempts are never further
+// apart than the configured maximum backoff (500 ms, +10% jitter) plus a 3 s
+// allowance for a starved machine; the listener never gives up; once the
+// balancer works again the endpoint is registered and served again.
+func runC18Outage(bin, dir string, agentStyle bool, sh *core.Shard) (sig, what, inconclusive string) {
+	p, err := startProc(bin, dir, "n0", nil, 5*time.Second)
+	if err != nil {
+		return "", "", err.Error()
+	}
+	defer func() {
+		if p.alive() {
+			_ = p.cmd.Process.Kill()
+			<-p.exited
+		}
+	}()
+	balancer, err := newLB([]string{p.upstream})
+	if err != nil {
+		return "", "", err.Error()
+	}
+	defer balancer.ln.Close()
+	l, err := listenVia(balancer.ln.Addr().String(), "out", agentStyle)
+	if err != nil {
+		return "", "", "listen: " + err.Error()
+	}
+	defer l.close()
+	registered := func() bool { v, err := p.local(); return err == nil && v.Endpoints["out"] == 1 }
+	if !core.WaitUntil(30*time.Second, 20*time.Millisecond, registered) {
+		return "", "", "the listener did not register"
+	}
+	const want = 10
+	balancer.setDown(true)
+	ok := core.WaitUntil(90*time.Second, 20*time.Millisecond, func() bool {
+		return len(balancer.attemptTimes()) >= want || l.serveErr.Load() != nil
+	})
+	at := balancer.attemptTimes()
+	balancer.setDown(false)
+	desc := fmt.Sprintf("outage scenario (agent-style listener=%v, min/max reconnect backoff 50ms/500ms)", agentStyle)
+	if e := l.serveErr.Load(); e != nil {
+		return "listener-gave-up", fmt.Sprintf("%s: the listener stopped serving after %d refused attempts: %v (nobody closed it)", desc, len(at), e), ""
+	}
+	var gaps []time.Duration
+	for i := 1; i < len(at); i++ {
+		gaps = append(gaps, at[i].Sub(at[i-1]).Round(time.Millisecond))
+	}
+	limit := 550*time.Millisecond + 3*time.Second
+	for i, g := range gaps {
+		if g > limit {
+			return "backoff-exceeds-maximum", fmt.Sprintf("%s: attempts %d and %d were %s apart, more than the maximum backoff (500ms + 10%% jitter) plus a 3 s allowance; gaps between attempts: %v", desc, i+1, i+2, g, gaps), ""
+		}
+	}
+	if !ok {
+		return "", "", fmt.Sprintf("only %d reconnect attempts within 90 s (gaps %v)", len(at), gaps)
+	}
+	sh.Count("outage_reconnect_attempts", int64(len(at)))
+	if !core.WaitUntil(60*time.Second, 20*time.Millisecond, func() bool { return registered() || l.serveErr.Load() != nil }) {
+		return "no-reattach-after-outage", fmt.Sprintf("%s: the balancer works again but the endpoint is not registered after 60 s (attempt gaps during the outage: %v)", desc, gaps), ""
+	}
+	if e := l.serveErr.Load(); e != nil {
+		return "listener-gave-up", fmt.Sprintf("%s: the listener stopped serving: %v", desc, e), ""
+	}
+	for try := 0; ; try++ {
+		r, err := nodes.Get(p.proxy, "out.piko.test", "/after-outage", nil, 10*time.Second)
+		if err == nil && r.Status == 200 {
+			break
+		}
+		if try == 3 {
+			st := 0
+			if r != nil {
+				st = r.Status
+			}
+			return "no-recovery", fmt.Sprintf("%s: the endpoint is registered again but a request answers %d (%v)", desc, st, err), ""
+		}
+		time.Sleep(200 * time.Millisecond)
+	}
+	sh.Count("outage_recoveries", 1)
+	return "", "", ""
+}
+
 func runC18(sh *core.Shard, a props.Args) {
 	bin := filepath.Join(os.Getenv("VERIF_BUILD"), "piko")
 	if a.Thorough() {
@@ -735,6 +877,30 @@ func runC18(sh *core.Shard, a props.Args) {
 	for v := 0; v < 2; v++ {
 		for _, sg := range []string{"term", "kill"} {
 			cases = append(cases, c18case{Nodes: 2, Victim: v, Phase: "upstreams", Signal: sg, Rebalance: true})
+		}
+	}
+	// balancer outage scenarios (reconnect backoff), one per listener style
+	for k, agentStyle := range []bool{true, false} {
+		if !a.Mine(len(cases) + k) {
+			continue
+		}
+		dir, err := os.MkdirTemp("", "c18o")
+		if err != nil {
+			sh.Inconcl("tempdir: %v", err)
+			continue
+		}
+		fmt.Printf("CASE C18 outage agentStyle=%v (logs %s)\n", agentStyle, dir)
+		sig, what, inc := runC18Outage(bin, dir, agentStyle, sh)
+		if inc != "" {
+			sig, what, inc = runC18Outage(bin, dir, agentStyle, sh)
+		}
+		sh.Eval()
+		if inc != "" {
+			sh.Inconcl("outage scenario: %s", inc)
+		} else if sig != "" {
+			sh.Violate(sig, what, map[string]any{"scenario": "outage", "agent_style": agentStyle})
+		} else {
+			os.RemoveAll(dir)
 		}
 	}
 	complete := true
@@ -789,12 +955,12 @@ func clip(s string, n int) string {
 func init() {
 	props.Register(&props.Prop{
 		ID: "C18", Level: "fault_enumeration", Parallel: 6, ExhaustiveWhenAll: true,
-		Rule: "clusters of 3 (thorough 3-5) real `piko server` processes started from the freshly built binary (thorough: race-built) with a 5 s grace period and 50 ms gossip interval; upstream listeners (client.Upstream, created agent-style with a cancelled connect context and with a live one) connect through a harness TCP load balancer so that a reconnect can land on a survivor; two endpoints live only on the victim, one only on a survivor, one on both; steady request traffic on every node. Enumerated completely: victim = every node x phase in {idle, upstreams connected, requests in flight (each grace/4 long), mid-shutdown (SIGTERM then SIGKILL / second SIGTERM)} x {SIGTERM, SIGKILL}. Oracle. Graceful: two seconds into a shutdown whose proxy is still draining 4 s requests the victim already holds no upstream (it stops advertising first); the process exits with status 0 within grace+10 s, and at the instant it has exited every survivor lists it as left or not at all; crash: every survivor flags it unreachable (60 s watchdog => inconclusive). Both: every listener keeps serving (a Serve/Accept that returned although nobody closed the listener is a violation), every endpoint is registered again on survivors exactly as often as the harness holds listeners, and once the survivors' tables mirror each other's own state every endpoint answers 200 through every surviving node; no survivor's remote_requests_total{node_id=victim} grows after the departure was known. Distinct = one per (size, victim, phase, signal). Four more cases run 2-node clusters with upstream rebalancing enabled (either node lost, term and kill, upstreams connected): after recovery the lone survivor keeps every re-attached upstream registered for four rebalance periods.",
+		Rule: "clusters of 3 (thorough 3-5) real `piko server` processes started from the freshly built binary (thorough: race-built) with a 5 s grace period and 50 ms gossip interval; upstream listeners (client.Upstream, created agent-style with a cancelled connect context and with a live one) connect through a harness TCP load balancer so that a reconnect can land on a survivor; two endpoints live only on the victim, one only on a survivor, one on both; steady request traffic on every node. Enumerated completely: victim = every node x phase in {idle, upstreams connected, requests in flight (each grace/4 long), mid-shutdown (SIGTERM then SIGKILL / second SIGTERM)} x {SIGTERM, SIGKILL}. Oracle. Graceful: two seconds into a shutdown whose proxy is still draining 4 s requests the victim already holds no upstream (it stops advertising first); the process exits with status 0 within grace+10 s, and at the instant it has exited every survivor lists it as left or not at all; crash: every survivor flags it unreachable (60 s watchdog => inconclusive). Both: every listener keeps serving (a Serve/Accept that returned although nobody closed the listener is a violation), every endpoint is registered again on survivors exactly as often as the harness holds listeners, and once the survivors' tables mirror each other's own state every endpoint answers 200 through every surviving node; no survivor's remote_requests_total{node_id=victim} grows after the departure was known. Distinct = one per (size, victim, phase, signal). Four more cases run 2-node clusters with upstream rebalancing enabled (either node lost, term and kill, upstreams connected): after recovery the lone survivor keeps every re-attached upstream registered for four rebalance periods. Two outage scenarios (one node behind the balancer, agent-style and plain listener): the balancer cuts the session and refuses every connection until 10 attempts were made; consecutive attempts are never further apart than the maximum reconnect backoff (500 ms + 10% jitter) plus a 3 s allowance, the listener never gives up, and the endpoint is registered and served again once the balancer works.",
 		Assumptions: []string{
 			"settling is decided from the admin API of the survivors; pure slowness beyond the 60 s watchdog is inconclusive, never a violation",
 			"'mid-shutdown' is approximated by a second signal 150 ms after SIGTERM",
 		},
-		RequireCounters: []string{"graceful_exits", "departure_seen_by_all_at_exit", "crash_flagged_unreachable_by_all", "listeners_reattached", "recovered_probes", "mid_drain_observations", "lone_survivor_stability_windows"},
+		RequireCounters: []string{"graceful_exits", "departure_seen_by_all_at_exit", "crash_flagged_unreachable_by_all", "listeners_reattached", "recovered_probes", "mid_drain_observations", "lone_survivor_stability_windows", "outage_reconnect_attempts", "outage_recoveries"},
 		Shards:          func(string) int { return 12 },
 		Timeout: func(tier string) time.Duration {
 			if tier == "thorough" {
